@@ -48,8 +48,14 @@ def Op.isPin : Op → Bool
   | .pin _ => true
   | .unpin _ => false
 
-/-- msgpack can rebuild the LogOp: no origins in its pin -/
-def Op.decodable (o : Op) : Bool := o.thePin.opts.origins.isEmpty
+/-- the name (in the harness' cid table) of the undefined cid `cid.Undef` -/
+def undefCid : Nat := 63
+
+/-- msgpack can rebuild the LogOp: no origins in its pin (`[]multiaddr.Multiaddr`), and neither its cid nor
+    its reference is `cid.Undef` (an undefined cid is written as an empty byte string, which `cid.Cid`
+    refuses to read back; 9d8b946 stopped the adder from producing such references) -/
+def Op.decodable (o : Op) : Bool :=
+  o.thePin.opts.origins.isEmpty && o.thePin.cid != undefCid && o.thePin.ref != some undefCid
 
 /-- `LogOp.ApplyTo` on the state: pin inserts or replaces the entry of its cid (in stored form), unpin deletes it -/
 def applyOp (m : PinMap) : Op → PinMap
